@@ -36,7 +36,13 @@ def run(ctx, model_ok):
                             "modelled (Model/Iface.lean, iface stream) for CustomSources — check_dimensions / check_excitations of the built-in classes, "
                             "in_out, the string-source route of getBH_level2 and numeric arrays whose last axis is not 3 are not in that model",
                             "dataframe: pandas DataFrame construction and column assignment are assumed as modelled (index list next to value list); labels are modelled by entry/sensor index",
-                            "the rank of one parameter value is read from a valid instance's attribute by the generator (trusted)"]
+                            "the rank of one parameter value is read from a valid instance's attribute by the generator (trusted)",
+                            "functional interface getBH_dict_level2: Model/DictIface.lean (treat / vecLen / rows) is NOT executed by the driver and no stream compares it "
+                            "with the real function; classification_correct, dict_interface_tiling and mismatched_lengths_rejected unfold that hand-written model "
+                            "(np.squeeze of a length-1 stack, ragged object arrays, position/orientation/observers tiling, the default rank 1 for unknown keys are not in it). "
+                            "What ties the functional interface to the code is the regenerated rank table (table_is_rank_plus_one, table_covers_source_classes) and the cross-interface oracle",
+                            "method_wrappers_agree: the first two conjuncts hold by definition of the model (srcMethod / sensMethod are defined as the top-level call); "
+                            "their content is the iface stream comparing the model with src.getB / sens.getB / coll.getB"]
     ctx.assumptions += ["np.tile / np.squeeze semantics in getBH_dict_level2 as modelled by DictIface.rows"]
 
 
